@@ -62,7 +62,12 @@ func netPeers(base boson.Address) (conn, known []boson.Address) {
 }
 
 func (e *env) net() *netNode {
-	return e.part("net", func() interface{} {
+	return e.part("net", func() interface{} { return newNet(e) }).(*netNode)
+}
+
+// newNet builds a fresh topology (for cases whose earlier messages change the peer tables)
+func newNet(e *env) *netNode {
+	{
 		store, err := leveldb.NewInMemoryStateStore(e.logger)
 		if err != nil {
 			panic(err)
@@ -94,5 +99,5 @@ func (e *env) net() *netNode {
 		}
 		n.kad.AddPeers(n.known...)
 		return n
-	}).(*netNode)
+	}
 }
